@@ -105,12 +105,14 @@ class Registry:
         self._clauses = {}
         self.bitop_hook = None
         self.isinstance_hook = None
+        self.classobj_hook = None     # fn(E, ClassV, attr) -> RefV holding that class's mutable class attributes, or None
         self._pow2 = None
         self._strlt = None
         self.active = None       # contract being verified (its inline set / externals apply)
         self.assumptions = []    # human-readable list that goes to the evidence
         self.mutants = {}
         self.lemmas = []         # (property, name, pc, goal): induction steps of spec-function lemmas
+        self.static_checks = []  # (property, name, fn(repo) -> (ok, detail)): obligations decided on the AST, no solver
 
     # ---- declarations ---------------------------------------------------------
     def classdecl(self, name, file=None, fields=None, bases=(), truthy=None):
